@@ -7,6 +7,7 @@ from ..runner import Scn, verdict, sha, Vacuous
 from . import c05, c06, c09
 
 ID = 'C13'
+DECORATE = True
 LEVEL = 'model_checking'
 RULE = ('E1 enumeration: decks (C05 universe trees with shared fillers, deviation-bounded; surface sets '
         'built to stress SurfaceT4 equality/hash: one plane under two numbers, planes 1e-3 apart, PLANEX 1 '
